@@ -65,7 +65,8 @@ fn run_plan_lay<T: FEl>(tr: &mut Trace, rng: &mut Rng, p: &Plan<T>, dense: usize
     let dynamic = rng.below(8) == 0;
     let cfg = Cfg1 { x: Some(&xr), data: &dr, dtag: dtag_for(p.data.ndim(), dynamic), store };
     let qin = dense_queries(&p.x, dense);
-    let qout = gen::queries_outside(rng, &p.x, 50.0, 6);
+    let mut qout = gen::queries_outside(rng, &p.x, 50.0, 6);
+    qout.extend(gen::queries_far(&p.x, true));
     let extra: Vec<(&str, String)> = p.poly.iter().map(|s| ("poly", s.clone())).collect();
     let exs: &[bool] = if extrap { &[false, true] } else { &[false] };
     for &ex in exs {
@@ -218,7 +219,8 @@ fn periodic_one<T: FEl>(tr: &mut Trace, rng: &mut Rng, n: usize, trailing: &[usi
             continue;
         }
         let mut qs: Vec<T> = vec![];
-        let ks: [f64; 11] = [1.0, -1.0, 2.0, -2.0, 3.0, -3.0, 1e3, -1e3, 1e6, -1e6, 7.0];
+        // whole periods away: near, far, and beyond 2^31 / 2^40 periods (any finite query must be answered)
+        let ks: [f64; 15] = [1.0, -1.0, 2.0, -2.0, 3.0, -3.0, 1e3, -1e3, 1e6, -1e6, 7.0, 3221225472.0, -8589934592.0, 35184372088832.0, -1099511627776.0];
         for _ in 0..6 {
             let base = rng.uniform(lo, hi);
             for k in ks {
